@@ -30,8 +30,13 @@ impl TcpStream {
         kernel::sock_clone(&self.k, self.sock);
         Ok(TcpStream { k: self.k.clone(), sock: self.sock, peer: self.peer })
     }
-    pub fn shutdown(&self, _how: Shutdown) -> io::Result<()> {
-        kernel::sock_shutdown(&self.k, self.sock);
+    pub fn shutdown(&self, how: Shutdown) -> io::Result<()> {
+        let (rd, wr) = match how {
+            Shutdown::Read => (true, false),
+            Shutdown::Write => (false, true),
+            Shutdown::Both => (true, true),
+        };
+        kernel::sock_shutdown(&self.k, self.sock, rd, wr);
         Ok(())
     }
     pub fn peer_addr(&self) -> io::Result<SocketAddr> {
